@@ -426,7 +426,7 @@ def redirect(tokeniser: 'Tokeniser') -> tuple[IP, ExtendedCommunities]:
             raise ValueError(f'asn is invalid, must be 0 to {ASN.MAX_4BYTE} (32 bits): {asn}')
 
         if asn > ASN.MAX_2BYTE:
-            if nn_int >= pow(2, LOCAL_ADMIN_16_BITS):
+            if nn_int < 0 or nn_int >= pow(2, LOCAL_ADMIN_16_BITS):
                 raise ValueError(
                     'asn is a 32 bits number, local administrator field can only be 16 bit {}'.format(nn_int)
                 )
@@ -436,6 +436,8 @@ def redirect(tokeniser: 'Tokeniser') -> tuple[IP, ExtendedCommunities]:
 
         if nn_int >= pow(2, LOCAL_ADMIN_32_BITS):
             raise ValueError('Local administrator field is a 32 bits number, value too large {}'.format(nn_int))
+        if nn_int < 0:
+            raise ValueError('Local administrator field can not be negative {}'.format(nn_int))
 
         return IP.NoNextHop, ExtendedCommunities().add(TrafficRedirect.make_traffic_redirect(ASN(asn), nn_int))
 
